@@ -374,6 +374,29 @@ fn history(w: &mut World, st: &mut St, rounds: u64) -> Result<(), String> {
             }
             late.push(m);
         }
+        // a burst delivered backwards: the receiver's ratchet holds skipped keys when it is saved
+        if w.rng.chance(1, 2) {
+            let s = act[w.rng.below(act.len())];
+            let mut burst = vec![];
+            for _ in 0..w.rng.range(2, 4) {
+                if let Some(m) = w.send_app(s, &mut NoHooks)? {
+                    burst.push(m);
+                }
+            }
+            st.resync(w, s);
+            for to in act.iter().copied().filter(|i| *i != s) {
+                for (k, m) in burst.iter().enumerate().rev() {
+                    match st.deliver_both(w, to, &m.msg, "application_out_of_order") {
+                        Ok(_) => {}
+                        Err(e) => return Err(format!("honest out-of-order application message rejected by {to}: {e}")),
+                    }
+                    if k + 1 == burst.len() {
+                        // saved with skipped generations in the ratchet history
+                        st.maybe_reload(w, to, "received_out_of_order_message");
+                    }
+                }
+            }
+        }
         // late application messages of earlier epochs (prior epochs partly unwritten)
         if let Some(old) = late.iter().find(|m| m.epoch + 1 == w.epoch()).cloned() {
             let rcv: Vec<usize> = w
